@@ -181,7 +181,7 @@ def _sym_worker(case, conn, seed, trace_fns):
         from .harness import SymH, Skip
         shims.patch_cardillo()
         _post_patch()
-        rng = random.Random(hash((seed, case.id)) & 0xFFFFFFFF)
+        rng = random.Random(int(hashlib.sha1(f'{seed}:{case.id}'.encode()).hexdigest()[:8], 16))
         core.CTX.reset_all()
         deadline = time.time() + case.hard * 0.9
         called = set()
